@@ -558,9 +558,18 @@ func registerEnv(e *Engine) {
 		}}
 		return tuple{i, cancel}
 	}
+	// a context with a deadline: the deadline never passes by itself (the ghost clock only moves when
+	// the harness says so); zzverif.ExpireDeadlines lets the deadline of every live one pass
+	withDeadline := func(in *interp, fr *frame, a []value) value {
+		r := withCancel(in, fr, a).(tuple)
+		if c, ok := r[0].(iface).v.(*ctxObj); ok {
+			in.timedCtxs = append(in.timedCtxs, c)
+		}
+		return r
+	}
 	e.reg("context.WithCancel", withCancel)
-	e.reg("context.WithTimeout", withCancel)
-	e.reg("context.WithDeadline", withCancel)
+	e.reg("context.WithTimeout", withDeadline)
+	e.reg("context.WithDeadline", withDeadline)
 	e.reg("context.WithValue", func(in *interp, fr *frame, a []value) value {
 		parent, _ := a[0].(iface).v.(*ctxObj)
 		i, c := in.newCtx(parent)
